@@ -7,49 +7,54 @@
 EXTENDS NodeRecovery, Json
 
 Trace == ndJsonDeserialize("trace.ndjson")
-VARIABLE l
-tvars == <<vars, l>>
+VARIABLES l,
+          seenIdx   \* an index family of the running index flush was committed (trace-level bookkeeping)
+tvars == <<vars, l, seenIdx>>
 ASSUME TLCSet(1, 0)
 Ev(e) == l <= Len(Trace) /\ Trace[l].ev = e /\ l' = l + 1
 Line == Trace[l]
 
-TraceInit == l = 1 /\ Init
+TraceInit == l = 1 /\ seenIdx = 0 /\ Init
 TReset ==
   /\ Ev("Reset")
   /\ wal' = << >> /\ gAck' = -1 /\ qAck' = -1 /\ dDict' = Empty /\ dCounter' = 0 /\ dFiles' = {} /\ dSeq' = -1
   /\ up' = TRUE /\ gCons' = -1 /\ fSeq' = -1
   /\ mDict' = Empty /\ mCounter' = 0 /\ mem' = {} /\ imm' = {} /\ immSeq' = -1 /\ gen' = 0 /\ ifl' = NoIfl /\ pendAck' = FALSE
-  /\ dSer' = {} /\ dIdx' = {} /\ mSer' = {} /\ mIdx' = {} /\ iSer' = {} /\ iIdx' = {} /\ idxPhase' = "idle"
+  /\ dSer' = {} /\ dIdx' = {} /\ mSer' = {} /\ mIdx' = {} /\ iSer' = {} /\ iIdx' = {} /\ idxPhase' = "idle" /\ badIdx' = {}
+  /\ seenIdx' = 0
 
-TAppend == Ev("Append") /\ AppendEntry(Line.name)
-TReplicaStep == Ev("ReplicaStep") /\ ReplicaStep
-TRBegin == Ev("RBegin") /\ RBegin
-TRWrite == Ev("RWrite") /\ RWrite
-TRCommit == Ev("RCommit") /\ RCommit
-TMetaFlush == Ev("MetaFlush") /\ MetaFlush
-TFamilyCommit == Ev("FamilyCommit") /\ FamilyFreezeAndCommit
-TFamilyAck == Ev("FamilyAck") /\ FamilyAck
-TCrash == Ev("Crash") /\ Crash
-TRecover == Ev("Recover") /\ Recover
-TLogRollback == Ev("LogRollback") /\ LogRollback(Line.gcons, Line.gack)
+TAppend == Ev("Append") /\ AppendEntry(Line.name) /\ UNCHANGED seenIdx
+TReplicaStep == Ev("ReplicaStep") /\ ReplicaStep /\ UNCHANGED seenIdx
+TRBegin == Ev("RBegin") /\ RBegin /\ UNCHANGED seenIdx
+TRWrite == Ev("RWrite") /\ RWrite /\ UNCHANGED seenIdx
+TRCommit == Ev("RCommit") /\ RCommit /\ UNCHANGED seenIdx
+TMetaFlush == Ev("MetaFlush") /\ MetaFlush /\ UNCHANGED seenIdx
+TFamilyCommit == Ev("FamilyCommit") /\ FamilyFreezeAndCommit /\ UNCHANGED seenIdx
+TFamilyAck == Ev("FamilyAck") /\ FamilyAck /\ UNCHANGED seenIdx
+TCrash == Ev("Crash") /\ Crash /\ seenIdx' = 0
+TRecover == Ev("Recover") /\ Recover /\ UNCHANGED seenIdx
+TLogRollback == Ev("LogRollback") /\ LogRollback(Line.gcons, Line.gack) /\ UNCHANGED seenIdx
 \* steps without an effect on the modelled state
-TSyncGC == Ev("SyncGC") /\ SyncGC
-\* Shard.FlushIndex observed through the kv seam: prepare, then one IdxCommit per manifest commit of an index family
-\* (three index families = part "index": the first of them makes the model's index part durable, the others
-\* stutter), the series family = part "series"; a flush cycle with nothing to flush commits nothing
-TIdxPrepare == Ev("IdxPrepare") /\ IdxPrepare
+TSyncGC == Ev("SyncGC") /\ SyncGC /\ UNCHANGED seenIdx
+\* Shard.FlushIndex observed through the kv seam: prepare, then one IdxCommit per manifest commit of an index family:
+\* metric inverted index, forward index, inverted index (part "index", in this order), then the series family.
+\* A new series with a tag has entries in all three; the shard index finds a series by metric AND by tag, i.e.
+\* the index part is durable with the THIRD index commit.  A family with nothing to flush commits nothing.
+TIdxPrepare == Ev("IdxPrepare") /\ IdxPrepare /\ seenIdx' = 0
 TIdxCommit ==
   /\ Ev("IdxCommit")
   /\ IF Line.part = "index"
-       THEN IF idxPhase = "prepared" THEN IdxCommitA ELSE (idxPhase = "half" /\ UNCHANGED vars)
-       ELSE \* the series family: only after the index families (an empty index part commits nothing)
-            IF idxPhase = "prepared" THEN (iIdx = {} /\ IdxCommitBoth) ELSE IdxCommitB
+       THEN /\ idxPhase = "prepared" /\ iIdx # {} /\ seenIdx' = seenIdx + 1
+            /\ IF seenIdx + 1 = 3 THEN IdxCommitA ELSE UNCHANGED vars
+       ELSE \* the series family: after the index families if there is anything to index
+            /\ seenIdx' = 0
+            /\ IF idxPhase = "half" THEN IdxCommitB ELSE (idxPhase = "prepared" /\ iIdx = {} /\ IdxCommitBoth)
 TIdxDone ==
-  /\ Ev("IdxDone")
-  /\ IF idxPhase = "prepared" THEN (iIdx = {} /\ iSer = {} /\ IdxCommitBoth)
+  /\ Ev("IdxDone") /\ seenIdx' = 0
+  /\ IF idxPhase = "prepared" THEN (iSer = {} /\ iIdx = {} /\ IdxCommitBoth)
      ELSE IF idxPhase = "half" THEN (iSer = {} /\ IdxCommitB)
      ELSE UNCHANGED vars
-TStutter == Ev("Note") /\ UNCHANGED vars
+TStutter == Ev("Note") /\ UNCHANGED vars /\ UNCHANGED seenIdx
 
 TProj ==
   /\ Ev("Proj")
@@ -59,6 +64,7 @@ TProj ==
   /\ DOMAIN Line.dict = DOMAIN AllDict
   /\ \A n \in DOMAIN AllDict : Line.dict[n] = AllDict[n]
   /\ UNCHANGED vars
+  /\ UNCHANGED seenIdx
 
 \* read-back of every entry: [seq, resolved (0/1), how often its point is in the data files]
 TFinal ==
@@ -68,9 +74,13 @@ TFinal ==
        LET e == Line.entries[i]  s == e[1]  n == wal[s + 1] IN
        /\ e[2] = (IF n \in DOMAIN AllDict THEN 1 ELSE 0)
        \* ... counted only for the series that the shard index finds by metric and by tag
-       /\ e[3] = (IF n \in DOMAIN AllDict /\ n \in AllIdx
-                    THEN Cardinality({b \in dFiles : b.seq = s /\ b.id = AllDict[n]}) ELSE 0)
+       /\ LET full == IF n \in DOMAIN AllDict /\ AllDict[n] \in AllIdx
+                         THEN Cardinality({b \in dFiles : b.seq = s /\ b.id = AllDict[n]}) ELSE 0
+          IN \/ e[3] = full
+             \* index entries made durable before their dictionary entries and cut off by a crash (IndexedResolves)
+             \/ (n \in DOMAIN AllDict /\ AllDict[n] \in badIdx /\ e[3] = 0)
   /\ UNCHANGED vars
+  /\ UNCHANGED seenIdx
 
 TraceNext == TReset \/ TAppend \/ TReplicaStep \/ TRBegin \/ TRWrite \/ TRCommit \/ TMetaFlush \/ TFamilyCommit \/ TFamilyAck \/ TCrash \/ TRecover \/ TLogRollback
              \/ TSyncGC \/ TIdxPrepare \/ TIdxCommit \/ TIdxDone \/ TStutter \/ TProj \/ TFinal
